@@ -939,3 +939,5 @@ def _run(world: World, plan):
     nontrivial = len(delivered_log) >= 2
     return common.finish(world, nontrivial, [sig, plan.get('net', {}).get('segmentation'),
                                              sorted((plan.get('blocked') or {}).items())])
+
+INFO['rule'] += " Round-5 additions: local steps track / untrack (the server's AddUser answer is folded), step relogin with the application keeping the User objects it was given (hold_users); after a session reset a name about which nothing was announced has no statistics."
